@@ -1,12 +1,41 @@
 -- GENERATED from the repository under verification by harness/extract.py on every run. DO NOT EDIT.
 namespace Generated.Grants
 
-/-- `GRANT_TYPE` of the built-in grants -/
-def grantTypes : List (String × String) := [
-  ("AuthorizationCodeGrant", "authorization_code"),
-  ("ImplicitGrant", "implicit"),
-  ("ResourceOwnerPasswordCredentialsGrant", "password"),
-  ("ClientCredentialsGrant", "client_credentials"),
-  ("RefreshTokenGrant", "refresh_token")]
+/-- `RESPONSE_TYPES` of the authorization-endpoint grants -/
+def codeResponseTypes : List String := ["code"]
+def implicitResponseTypes : List String := ["token"]
+def oidcImplicitResponseTypes : List String := ["id_token", "id_token token"]
+def hybridResponseTypes : List String := ["code id_token", "code id_token token", "code token"]
+
+/-- `ERROR_RESPONSE_FRAGMENT` / default response mode: does the grant put errors in the fragment -/
+def codeErrorFragment : Bool := false
+def implicitErrorFragment : Bool := true
+def oidcImplicitErrorFragment : Bool := true
+def hybridErrorFragment : Bool := true
+def oidcDefaultResponseMode : String := "fragment"
+def hybridDefaultResponseMode : String := "fragment"
+
+/-- `TOKEN_ENDPOINT_AUTH_METHODS` as shipped (the reference integrator widens some of them, see memserver.py) -/
+def codeAuthMethods : List String := ["client_secret_basic", "client_secret_post"]
+def implicitAuthMethods : List String := ["none"]
+def oidcImplicitAuthMethods : List String := ["none"]
+def hybridAuthMethods : List String := ["none"]
+def passwordAuthMethods : List String := ["client_secret_basic"]
+def clientCredentialsAuthMethods : List String := ["client_secret_basic"]
+def refreshAuthMethods : List String := ["client_secret_basic"]
+def deviceAuthMethods : List String := ["client_secret_basic", "client_secret_post", "none"]
+
+/-- `^[a-zA-Z0-9\-._~]{43,128}\Z` as (character ranges, min, max, end anchor) -/
+def codeVerifierRanges : List (Nat × Nat) := [(97, 122), (65, 90), (48, 57), (45, 45), (46, 46), (95, 95), (126, 126)]
+def codeVerifierMin : Nat := 43
+def codeVerifierMax : Nat := 128
+def codeVerifierEndIsDollar : Bool := false
+/-- `^[a-zA-Z0-9\-._~]{43,128}\Z` as (character ranges, min, max, end anchor) -/
+def codeChallengeRanges : List (Nat × Nat) := [(97, 122), (65, 90), (48, 57), (45, 45), (46, 46), (95, 95), (126, 126)]
+def codeChallengeMin : Nat := 43
+def codeChallengeMax : Nat := 128
+def codeChallengeEndIsDollar : Bool := false
+def supportedChallengeMethods : List String := ["plain", "S256"]
+def defaultChallengeMethod : String := "plain"
 
 end Generated.Grants
